@@ -33,6 +33,63 @@ func buildShape(d *gdriver, shape string) error {
 		return err
 	}
 	switch shape {
+	case "moved-into-a-group-of-its-parent":
+		// a node that was moved from its parent into a group below that parent: the parent is still an ancestor,
+		// over the live path through the group (and, for edge points, over the deleted edge as well)
+		x, err := mk(root, "group")
+		if err != nil {
+			return err
+		}
+		n, err := mk(x, "variable") // the old edge is the older one
+		if err != nil {
+			return err
+		}
+		g, err := mk(x, "group")
+		if err != nil {
+			return err
+		}
+		if err := mirror(n, g); err != nil {
+			return err
+		}
+		if err := del(n, x, 1); err != nil {
+			return err
+		}
+		_, err = mk(n, "variable")
+		return err
+	case "diamond-ladder":
+		// twelve diamonds on top of each other: 4096 ways from the bottom to the top. Built from the bottom up
+		// (an edge may name a parent that has no edge of its own yet), so that building it does not itself send
+		// tens of thousands of announcements; the top is hooked below the root last
+		const levels = 12
+		ns := make([]string, levels+1)
+		for l := range ns {
+			ns[l] = d.newID()
+		}
+		edge := func(id, parent string) error {
+			e, err := d.sendEdge(id, parent, data.Points{{Type: data.PointTypeTombstone, Time: d.now(), Value: 0}, {Type: data.PointTypeNodeType, Text: "group"}})
+			if err == nil && e != "" {
+				err = fmt.Errorf("edge %s below %s refused: %s", id, parent, e)
+			}
+			return err
+		}
+		for l := levels; l >= 1; l-- {
+			a, b := d.newID(), d.newID()
+			for _, pr := range [][2]string{{ns[l], a}, {ns[l], b}, {a, ns[l-1]}, {b, ns[l-1]}} {
+				if err := edge(pr[0], pr[1]); err != nil {
+					return err
+				}
+			}
+			d.Made = append(d.Made, a, b)
+		}
+		if err := edge(ns[0], root); err != nil {
+			return err
+		}
+		// Made: top first, bottom last
+		d.Made = append([]string{ns[0]}, d.Made...)
+		for l := 1; l <= levels; l++ {
+			d.Made = append(d.Made, ns[l])
+		}
+		return nil
 	case "first-placed-nowhere":
 		// a node whose first edge names no parent ("none" is what the library puts on the bus for an empty
 		// parent id), placed below a real node afterwards; it has a child of its own
@@ -140,7 +197,21 @@ func buildShape(d *gdriver, shape string) error {
 	return nil
 }
 
-var c06Shapes = []string{"chain", "wide", "mirror", "diamond", "tombstoned-middle", "two-parents-one-deleted", "deleted-then-undeleted", "random", "first-placed-nowhere"}
+var c06Shapes = []string{"chain", "wide", "mirror", "diamond", "tombstoned-middle", "two-parents-one-deleted", "deleted-then-undeleted", "random", "first-placed-nowhere", "moved-into-a-group-of-its-parent", "diamond-ladder"}
+
+// ownMetricReport: a node-point rebroadcast made of the metric points the store writes about itself
+func ownMetricReport(m vlib.TapMsg) bool {
+	pts, err := data.PbDecodePoints(m.Raw)
+	if err != nil || len(pts) == 0 {
+		return false
+	}
+	for _, p := range pts {
+		if !strings.HasPrefix(p.Type, "metric") {
+			return false
+		}
+	}
+	return true
+}
 
 // checkRebroadcast compares tapped messages with the expected ancestor set.
 func checkRebroadcast(msgs []vlib.TapMsg, node, parent string, edge bool, want map[string]bool, sent data.Points) (sig, what string) {
@@ -149,6 +220,9 @@ func checkRebroadcast(msgs []vlib.TapMsg, node, parent string, edge bool, want m
 		parts := strings.Split(m.Subject, ".")
 		okShape := parts[0] == "up" && ((!edge && len(parts) == 3) || (edge && len(parts) == 4))
 		if !okShape || parts[2] != node || (edge && parts[3] != parent) {
+			if len(parts) == 3 && parts[0] == "up" && parts[2] != node && ownMetricReport(m) {
+				continue // the instance's once-a-minute report about itself (a case that runs for more than a minute meets it)
+			}
 			return "rebroadcast:foreign-message", fmt.Sprintf("unexpected message on %s while writing %s", m.Subject, node)
 		}
 		got[parts[1]]++
@@ -194,12 +268,15 @@ func keysOf(m map[string]bool) []string {
 func runC06(tier string, _ []string) int {
 	c := vlib.NewCtx("C06", tier, "exploration")
 	vlib.SetPortBlock(6)
-	c.SetRule("per case a fresh instance and a graph of one generator class (chain, wide, mirror, diamond, tombstoned edge in the middle, node under two parents one of which is deleted, deleted then undeleted, random history, a node whose first edge names no parent and that is placed below a real node later); then every node (incl. the root and one detached node that has points but no edge) is written once with an acknowledged node batch and every placement once with an edge batch (newer than what is stored; some carry a point of the tombstone's type under another key, which says nothing about the edge); an up.> subscription on the writer's connection is drained at the reply barrier and compared with the model: {node} + ancestors through live edges (node points) / through any edges (edge points) + the root sentinel, payload equal to the points sent. In every second case 4-9 random legal graph operations follow (mirror, move, delete, undelete, create) and every node and placement is written and checked again. (Thorough tier: one instance serves 66 000 writes, then 200 quiet nodes are written again at distances around 2^16 writes.) In every third case a concurrent phase follows: an edge is deleted / undeleted 3-8 times while a second connection writes back to back to a node below it; at rest afterwards, writes below the edge must be announced exactly according to the final graph. distinct = (shape, node|edge, size of expected set, duplicates seen)")
+	c.SetRule("per case a fresh instance and a graph of one generator class (chain, wide, mirror, diamond, tombstoned edge in the middle, node under two parents one of which is deleted, deleted then undeleted, random history, a node whose first edge names no parent and that is placed below a real node later, a node moved into a group of its own parent, a ladder of twelve diamonds with 4096 ways from the bottom to the top); then every node (incl. the root and one detached node that has points but no edge) is written once with an acknowledged node batch and every placement once with an edge batch (newer than what is stored; some carry a point of the tombstone's type under another key, which says nothing about the edge); an up.> subscription on the writer's connection is drained at the reply barrier and compared with the model: {node} + ancestors through live edges (node points) / through any edges (edge points) + the root sentinel, payload equal to the points sent. In every second case 4-9 random legal graph operations follow (mirror, move, delete, undelete, create) and every node and placement is written and checked again. (Thorough tier: one instance serves 66 000 writes, then 200 quiet nodes are written again at distances around 2^16 writes.) In every third case a concurrent phase follows: an edge is deleted / undeleted 3-8 times while a second connection writes back to back to a node below it; at rest afterwards, writes below the edge must be announced exactly according to the final graph. distinct = (shape, node|edge, size of expected set, duplicates seen)")
 	c.Assume("the store publishes rebroadcasts before the reply on one connection and NATS keeps per-publisher order to a subscriber connection (barrier, DESIGN C05)")
 	nGraphs := c.N(160, 1600)
 	vlib.Parallel(nGraphs, 6, func(i int) {
 		r := vlib.NewR(c.Seed, "c06", i)
 		shape := c06Shapes[i%len(c06Shapes)]
+		if shape == "diamond-ladder" && i >= 2*len(c06Shapes) {
+			shape = "diamond" // (two ladders per run: each costs about as much as fifty other graphs)
+		}
 		in, err := vlib.StartInstance(vlib.InstCfg{ID: fmt.Sprintf("c06-%d", i)})
 		if err != nil {
 			c.Inconclusive(err.Error())
@@ -233,6 +310,12 @@ func runC06(tier string, _ []string) int {
 		nodes := append([]string{in.RootID}, d.Made...)
 		detached := d.newID()
 		nodes = append(nodes, detached)
+		ladder := shape == "diamond-ladder"
+		if ladder {
+			// (a write at the bottom is announced over each of the 4096 ways: the bottom node, the two above it
+			// and the top are written, not all 37)
+			nodes = []string{in.RootID, d.Made[0], d.Made[len(d.Made)-3], d.Made[len(d.Made)-2], d.Made[len(d.Made)-1]}
+		}
 		for _, n := range nodes {
 			pts := d.somePoints(1 + r.Intn(3))
 			e, err := d.sendNode(n, pts)
@@ -258,6 +341,9 @@ func runC06(tier string, _ []string) int {
 		}
 		for _, k := range d.g.EdgeKeys() {
 			parent, n := k[0], k[1]
+			if ladder && n != d.Made[len(d.Made)-1] && n != d.Made[0] {
+				continue
+			}
 			pts := data.Points{{Type: []string{"role", "sortOrder"}[r.Intn(2)], Key: []string{"", "x"}[r.Intn(2)], Time: d.now(), Value: float64(r.Intn(5)), Text: c01Str(r), Origin: "user-y"}}
 			if n != in.RootID && r.Chance(0.15) { // (on the root's edge the store refuses anything of that type)
 				// an edge point that has the tombstone's type but another key: it says nothing about the edge
@@ -294,7 +380,7 @@ func runC06(tier string, _ []string) int {
 		// ---- the graph changes after it has been written to (mirrors, moves, deletions, undeletions,
 		// new nodes), then every node is written again: whatever the store remembers about ancestors
 		// from the first round must not survive the changes
-		if i%2 == 1 {
+		if i%2 == 1 && !ladder {
 			for q := 0; q < 4+r.Intn(6); q++ {
 				if _, err := d.randomLegalOp(); err != nil {
 					c.Violate("store:legal-write-refused", err.Error(), wit(nil))
@@ -348,7 +434,7 @@ func runC06(tier string, _ []string) int {
 		// ---- concurrent phase: the ancestor set of a node changes (edge deleted / undeleted / mirrored)
 		// while another connection writes to a node below it back to back; afterwards, at rest, a
 		// write below must be announced according to the final graph
-		if i%3 == 0 {
+		if i%3 == 0 && !ladder {
 			var cands [][2]string
 			for _, k := range d.g.EdgeKeys() {
 				if k[1] != in.RootID && k[0] != "root" {
